@@ -200,6 +200,7 @@ func main() {
 	}
 	// 2. call sequences, in process
 	oversizedReport(run)
+	timedOutRound(run)
 	for s := 0; s < *nseq; s++ {
 		r := hx.Rng(*seed, s)
 		g := dbx.NewGen(r, "general")
@@ -607,4 +608,54 @@ func min(a, b int) int {
 		return a
 	}
 	return b
+}
+
+// timedOutRound: a scheduling round whose proposal is applied only after the leader has given up waiting for it, then a
+// second round that is acknowledged, then the report of the addressed NodeHost. The fate of the first round is open; the
+// second one was acknowledged, so it is the batch most recently scheduled and the one the NodeHost receives (C10), and
+// the service answers with what the DB holds (C17).
+func timedOutRound(run *hx.Run) {
+	h, slow := nhx.NewSlowDrummerDBHost()
+	defer h.Close()
+	srv := drummer.VerifNewServer(h.NH)
+	rounds := drummer.VerifNewRounds(h.NH)
+	addr := "late"
+	kill := func(s uint64) *pb.NodeHostRequest {
+		return &pb.NodeHostRequest{Change: &pb.Request{Type: pb.Request_KILL, ShardId: s, Members: []uint64{7}}, RaftAddress: addr}
+	}
+	// a first, ordinary round: the leader's session is in use from here on
+	if _, err := rounds.UpdateRequests([]*pb.NodeHostRequest{kill(1)}); err != nil {
+		run.Count("c17:inconclusive_timed_out_round")
+		return
+	}
+	old := drummer.VerifSetRaftOpTimeout(250)
+	slow.HoldNext(1, 900*time.Millisecond)
+	_, err1 := rounds.UpdateRequests([]*pb.NodeHostRequest{kill(2)})
+	drummer.VerifSetRaftOpTimeout(old)
+	time.Sleep(1200 * time.Millisecond) // the held-back proposal has been applied by now
+	n3, err3 := rounds.UpdateRequests([]*pb.NodeHostRequest{kill(3), kill(4)})
+	run.Count("case:timed_out_round_probe")
+	if err1 == nil || err3 != nil {
+		run.Count("c17:inconclusive_timed_out_round") // the first did not time out, or the second was not acknowledged
+		return
+	}
+	reply, err := srv.ReportAvailableNodeHost(ctx(), &pb.NodeHostInfo{RaftAddress: addr, RPCAddress: "rpc-" + addr, Region: "reg0"})
+	if err != nil {
+		run.Count("c17:inconclusive_timed_out_round")
+		return
+	}
+	got := []string{}
+	for _, rq := range reply.Requests {
+		got = append(got, dbx.ReqStr(rq))
+	}
+	want := []string{dbx.ReqStr(kill(3)), dbx.ReqStr(kill(4))}
+	run.Count("c17:timed_out_round_checked")
+	if n3 != 2 || strings.Join(got, ",") != strings.Join(want, ",") {
+		ops := []string{"round [kill shard 1] acknowledged", "round [kill shard 2]: the proposal is applied 900ms after the leader's 250ms timeout (" + err1.Error() + ")",
+			fmt.Sprintf("round [kill shard 3, kill shard 4] acknowledged with count %d", n3), "report of " + addr}
+		for _, p := range []string{"C10", "C17"} {
+			run.Violate(hx.Violation{Property: p, Clause: "latest_batch_delivered", Signature: "acknowledged-round-not-delivered",
+				What: fmt.Sprintf("the round acknowledged last carried %v for %s; its report was answered with %v (a proposal of the round before had timed out and was applied late)", want, addr, got), Ops: ops})
+		}
+	}
 }
